@@ -93,6 +93,7 @@ def run_sampler(sc, client):
             if kind.startswith("rej"):
                 s.set_objective(ab["n"], n_sim=ab["n_sim"])
             else:
+                s.bar = False          # (SMC.update reads the progress-bar switch that only sample() sets: driving iterate() by hand needs it)
                 s.set_objective(ab["n"], thresholds=[9.0, 8.0])
             for _k in range(ab["iters"]):
                 if s.finished:
@@ -349,8 +350,13 @@ CHECK_DEADLOCK FALSE
     for sc, tr, v in zip(scs, traces, verdicts):
         ctx.case(("client", sc["client"], sc["seed"], sc["n"]), nontrivial=sc["n"] >= 8)
         if v["verdict"] != "ok":
-            # extension beyond the statement of C04 (the statement quantifies over what a client MAY exhibit): drift only
-            ctx.drifted(v["verdict"], sc, detail=tr["events"][max(0, v["l"] - 2)])
+            if sc["client"] in ("native", "multiprocessing"):
+                # elfi's own clients (anchors of C04) must BE clients: what the statement promises for every behaviour a client
+                # may exhibit rests on fresh task ids, one result per task, nothing for a removed task
+                ctx.fail("P:elfi-client-keeps-the-client-contract/" + v["verdict"].split(":", 1)[-1], dict(sc, family="client"),
+                         detail=tr["events"][max(0, v["l"] - 2)])
+            else:
+                ctx.drifted(v["verdict"], sc, detail=tr["events"][max(0, v["l"] - 2)])
 
 
 def record_abandoned(sc):
@@ -371,7 +377,8 @@ def check_abandoned(ctx, scs=None):
     """a sampler advanced by hand under another objective, abandoned with batches outstanding, then asked to sample():
     judged on the end of the run only (result of the sequential fresh run, no task left) - Batches_Trace end event"""
     if scs is None:
-        bases = [b for b in base_scenarios(ctx) if b["kind"] in ("rej-thr", "rej-q", "rej-nsim", "smc-thr")]
+        # (Rejection only: an SMC object KEEPS the populations of an earlier objective - continued sampling is a feature)
+        bases = [b for b in base_scenarios(ctx) if b["kind"] in ("rej-thr", "rej-q", "rej-nsim")]
         rnd = random.Random(ctx.seed + 33)
         scs = []
         for b in rnd.sample(bases, 6 if ctx.quick else 40):
@@ -418,6 +425,13 @@ def run(ctx):
 
 
 def replay(ctx, scenario):
+    if scenario.get("family") == "client":
+        tr = record_client(scenario)
+        v = ctx.validate("ClientContract_Trace", [tr], name="clients")[0]
+        ctx.case(("client", scenario["client"], scenario["seed"], scenario["n"]), nontrivial=True)
+        if v["verdict"] != "ok":
+            ctx.fail("P:elfi-client-keeps-the-client-contract/" + v["verdict"].split(":", 1)[-1], scenario, detail=tr["events"][max(0, v["l"] - 2)])
+        return
     if scenario.get("family") == "abandoned":
         return check_abandoned(ctx, [scenario])
     check_scenarios(ctx, [scenario])
